@@ -69,8 +69,15 @@ def counter_case(draw, tier):
         edges += [[draw(st.integers(0, a - 1)), draw(st.integers(a, n - 1))] for _ in range(draw(st.integers(1, 2)))]
         edges = [list(e) for e in {tuple(e) for e in edges}]
     lab = list(range(n))
-    if draw(st.booleans()):
+    sch = draw(st.sampled_from(["id", "offset", "negative", "big", "str"]))
+    if sch == "offset":
         lab = [5 * i + 2 for i in range(n)]
+    elif sch == "negative":
+        lab = [i - 2 for i in range(n)]
+    elif sch == "big":
+        lab = [3000 - 11 * i for i in range(n)]
+    elif sch == "str":
+        lab = [f"n{i}" for i in range(n)]
     focal = draw(st.integers(0, n - 1))
     ak = draw(st.lists(st.integers(0, n - 1).filter(lambda v: v != focal), max_size=n - 1, unique=True))
     return {"kind": "counter", "n": n, "edges": [[lab[a], lab[b]] for a, b in edges], "nodes": lab,
@@ -208,7 +215,7 @@ def check(case):
     snap = (set(G.nodes()), {frozenset(e) for e in G.edges()})
     for kk in range(0, len(sub_edges) + 1):
         got = call("number_of_connected_graphs", number_of_connected_graphs, G, list(case["ak"]), case["focal"], kk)
-        want = oracles.count_connected_after_removal(sorted(keep), sub_edges, kk)
+        want = oracles.count_connected_after_removal(sorted(keep, key=repr), sub_edges, kk)
         if got != want:
             raise Violation("counter", f"number_of_connected_graphs(edges={case['edges']}, ak={case['ak']}, i={case['focal']}, k={kk}) = {got}, "
                                        f"exact count {want}")
